@@ -47,8 +47,18 @@ def r_C10eval(root):
         H = mk(cClass, pa, name="H", base=None); pa["._members"].append(H)
         Y[".base"] = X2; Y[".__dict__"]["base"] = X2
         return dict(root=rootm, a=pa, b=pb, z=pz, ab=pab, X=X, Y=Y, Main=Main, M=Mc, X2=X2, Q=Q, T1=T1, H=H, N1=N1, N2=N2)
+    pcds = {c.name: c for c in t.body if isinstance(c, ast.ClassDef)}
+    _provs = {}
+    def provider(tree, redirect):
+        """ONE provider object (constructor interpreted) serves every reference of a model, as at run time"""
+        key = (id(tree), id(redirect))
+        if key not in _provs:
+            try: _provs[key] = pyeval.instantiate("FQN", [], {"scope_redirection_logic": redirect} if redirect is not None else {}, {"__classdefs__": pcds, "__functions__": fns, "__module__": t})
+            except (pyeval.Raised, pyeval.Unsupported) as x_: raise AnalysisError("FQN(...): %s" % x_)
+            _provs[key].setdefault(".scope_redirection_logic", redirect); _provs[key][".kind"] = "provider"
+        return _provs[key]
     def run(tree, start, name, cls, redirect=None):
-        selfs = HS({".kind": "provider", ".scope_redirection_logic": redirect})
+        selfs = provider(tree, redirect)
         ref = HS({".__class__": XREF, ".obj_name": name, ".cls": cls, ".position": 3})
         env = {"__functions__": fns, "__module__": t, ps[0]: selfs, ps[1]: tree[start], ps[2]: HS({".name": "ref"}), ps[3]: ref, "ObjCrossRef": XREF, "Postponed": POST,
                "get_model": pyeval.PyFn(lambda o: tree["root"]), "get_parser": pyeval.PyFn(lambda o: HS({".debug": False})), "textx_isinstance": pyeval.PyFn(lambda o, c: isinstance(o, dict) and (o.get(".__class__") is c or (isinstance(c, pyeval.ClassRef) and c.name == "object"))),
@@ -65,12 +75,13 @@ def r_C10eval(root):
              ("root", "nosuch.X", "Class", None, "an unknown first part"), ("root", "a.nosuch", "Class", None, "an unknown last part"), ("Y", "base", "Class", None, "a non-containment reference of the referencing object is not searched"),
              ("X", "b.N", "Class", "N1", "a dotted name that resolves both from a nearer ancestor (a.b.N) and from the root (b.N): the nearer scope wins"), ("root", "b.N", "Class", "N2", "the same dotted name written at the root"),
              ("root", "a.H", "Class", "H", "a contained attribute whose name starts with one underscore is searched (only dunder and _tx_ names are skipped)"),
-             ("a", "X", "Class", "X", "names contained in the referencing object itself are visible"), ("a", "b.M", "Class", "M", "a chain that starts inside the referencing object"),
+             ("a", "X", "Class", "X", "names contained in the referencing object itself are visible"), ("b", "X", "Class", "X2", "a sibling of that object with the same reference text sees its own children (b.X, not a.X)"), ("a", "b.M", "Class", "M", "a chain that starts inside the referencing object"),
              ("M", "a", "Package", "a", "an ancestor is found by name from the scope that contains it, not through the parent link of its children"), ("M", "parent.X", "Class", None, "'parent' is not a path step")]
     W = "FQN.__call__"
-    for start, name, tcls, want, why in CASES:
+    tree0 = build()          # one model and one provider object for all references, asked one after the other (twice: a second pass must give the same answers)
+    for start, name, tcls, want, why in CASES + CASES:
         inst += 1
-        tree = build(); k, v = run(tree, start, name, cClass if tcls == "Class" else cPackage)
+        k, v = run(tree0, start, name, cClass if tcls == "Class" else cPackage); tree = tree0
         ok = k == "ret" and (v is tree[want] if want else v is None)
         ob("C10", "C10.h", P, W, "%r referenced inside %s as %s -> %s" % (name, start, tcls, want), ok)
         if not ok:
